@@ -320,8 +320,9 @@ def _timed_build(tdir=""):
         MayThrowStmt(r"\bset_thread_state_abs", None),
     ]
     LOOP_WAIT = """
-__CPROVER_assigns(timer_started, g_flag_loads, g_flag_seen, g_flag_env_set, g_wait_yields, vx_exc, g_thrown_code, g_exc_in_wait)
+__CPROVER_assigns(timer_started, g_flag_loads, g_flag_seen, g_flag_env_set, g_wait_yields, vx_exc, g_thrown_code, g_exc_in_wait, g_intr_pending)
 __CPROVER_loop_invariant(!vx_exc && !g_exc_in_wait && g_flag_loads >= 0 && g_flag_loads <= 2 && g_wait_yields >= 0 && g_wait_yields <= 2)
+__CPROVER_loop_invariant(__CPROVER_loop_entry(g_intr_pending) ==> g_intr_pending)
 """
     L_SUSPEND = r"thread_restart_state suspend\(\s*pika::chrono::steady_time_point const& abs_time, threads::detail::thread_id_type nextid,"
     L_H6 = r"thread_state set_thread_state\(thread_id_type const& id, thread_schedule_state state,"
